@@ -13,6 +13,8 @@ pub mod c11;
 pub mod c12;
 pub mod conf;
 pub mod reexport;
+pub mod c06;
+pub mod c07;
 pub mod c08;
 
 /// run a case's history on fresh parsers; returns per call (parser index, buffer, result)
@@ -39,5 +41,5 @@ pub struct PropDef {
 }
 
 pub fn all() -> Vec<PropDef> {
-    vec![c01::DEF, c02::DEF, c03::DEF, c04::DEF, c05::DEF, c08::DEF, reexport::C09, reexport::C10, c11::DEF, c12::DEF]
+    vec![c01::DEF, c02::DEF, c03::DEF, c04::DEF, c05::DEF, c06::DEF, c07::DEF, c08::DEF, reexport::C09, reexport::C10, c11::DEF, c12::DEF]
 }
